@@ -103,14 +103,23 @@ pub fn gen(rng: &mut Rng, quick: bool, st: &mut Stats) -> Vec<String> {
         }
     }
     st.add("lists_random", nrand);
+    // very regular directories: under a codec they shrink to far less than one byte per entry
+    for (i, n) in (if quick { vec![500usize, 3000, 20_000] } else { vec![500, 3000, 20_000, 60_000, 100_000] }).into_iter().enumerate() {
+        let len = [1000u32, 7, 65_536][i % 3];
+        let tiles: Vec<Entry> = (0..n).map(|k| Entry { tile_id: 10 + k as u64, offset: k as u64 * u64::from(len), length: len, run_length: 1 }).collect();
+        let ptrs: Vec<Entry> = (0..n).map(|k| Entry { tile_id: 4096 * k as u64, offset: k as u64 * 500, length: 500, run_length: 0 }).collect();
+        lists.push(tiles);
+        lists.push(ptrs);
+        st.add("lists_regular", 2);
+    }
     for (k, es) in lists.iter().enumerate() {
         debug_assert!(is_valid_dir(es));
         let et = entries_tok(es);
-        let small = es.len() <= 3000;
+        let small = es.len() <= 3000 || (es.len() <= 20_000 && es.windows(2).all(|w| w[1].length == w[0].length));
         // model-compared operations
         let codec_rot = ALL_COMP[1 + k % 3];
         let mut codecs = vec![Compression::None];
-        if k % 4 == 0 && small {
+        if (k % 4 == 0 || es.len() > 3000) && small {
             codecs.push(codec_rot);
         }
         if small {
@@ -138,7 +147,7 @@ pub fn gen(rng: &mut Rng, quick: bool, st: &mut Stats) -> Vec<String> {
             }
         }
         // direct oracle
-        cases.push(format!("chk_dir_roundtrip {} {et}", u8::from(k % 4 == 0 || !quick)));
+        cases.push(format!("chk_dir_roundtrip {} {et}", u8::from(k % 4 == 0 || !quick || es.len() > 3000)));
     }
     cases
 }
